@@ -114,6 +114,7 @@ include hs
 
 theorem battrParse_ni (attrs : Str) : NI (battrParse rec env attrs) := by
   have hr := replaceInline_ni rec env hs
+  have hm := macrosRender_ni rec env hs
   unfold battrParse; ni_go
 
 theorem verifyMacroLine_ni (mt : Match) (r : Reader) : NI (verifyMacroLine rec env mt r) := by
